@@ -397,6 +397,9 @@ void check_options (void)
 	if (ctrl.C_plus_plus && ctrl.bison_bridge_lval)
 		flexerror (_("bison bridge not supported for the C++ scanner."));
 
+	if (ctrl.do_main == trit_true && tablesext && !tablesverify)
+		flexerror (_("%option main cannot be used with --tables-file: the generated main() does not load the tables"));
+
 	if (ctrl.C_plus_plus && tablesext)
 		flexerror (_("Can't use --tables-file or --tables-verify with -+"));
 
